@@ -659,6 +659,37 @@ func ruleTombstoneSemantics(r *Report) {
 				}
 			}
 		}
+		if !ok && (sp.nilWant == "true" || sp.nilWant == "false") {
+			// the test returned as it is: `return *element.value != nil` (Contains), `return *element.value == nil`
+			// (IsTombstoned)
+			for _, rs := range returnsOf(fn) {
+				ret := rs.Instr.(*ssa.Return)
+				if len(ret.Results) == 0 {
+					continue
+				}
+				bo, isB := ret.Results[0].(*ssa.BinOp)
+				if !isB || (bo.Op != token.EQL && bo.Op != token.NEQ) {
+					continue
+				}
+				var v ssa.Value
+				if isNilConst(bo.Y) {
+					v = bo.X
+				} else if isNilConst(bo.X) {
+					v = bo.Y
+				}
+				u, isU := v.(*ssa.UnOp)
+				if !isU || u.Op != token.MUL {
+					continue
+				}
+				if _, isV := valueCellOf(u.X); !isV {
+					continue
+				}
+				// the value of the expression when the stored value is nil
+				if onNil := bo.Op == token.EQL; fmt.Sprint(onNil) == sp.nilWant {
+					ok = true
+				}
+			}
+		}
 		if ok {
 			r.OK(rule, key, fn.Pos(), "nil stored value ↔ tombstone")
 		} else {
